@@ -166,7 +166,7 @@ def _bool_sites(bv, c, l, want, depth=0):
     return out
 
 
-def _flag_sites(bv, c, l, want, depth=0):
+def _flag_sites(bv, c, l, want, depth=0, W=None):
     """Like _bool_sites, but a computed definition counts too: [(block, term or None)] — the blocks at which the boolean
     local `l` may receive `want`; term is the computed value (None for a constant).  None when a definition is negated
     computation or otherwise unreadable."""
@@ -182,14 +182,14 @@ def _flag_sites(bv, c, l, want, depth=0):
             t = bv._trace_call(bi, x, frozenset(), 0)
             if not _readable_cond(t):
                 return None
-            out.append((bi, t))
+            out.append((bv, bi, t))
             continue
         if kind != "rv":
             return None
         v = lib.term_const(c, bv._trace_rv(x, None, 0)) if x["k"] in ("use",) and "k" in x.get("o", {}) else None
         if v in (0, 1):
             if bool(v) == want:
-                out.append((bi, None))
+                out.append((bv, bi, None))
             continue
         src = None
         neg = False
@@ -199,7 +199,7 @@ def _flag_sites(bv, c, l, want, depth=0):
             src = x["o"].get("m") or x["o"].get("c")
             neg = True
         if src is not None and not src.get("p") and bv.crate.types[bv.locals[src["l"]]["t"]]["s"] == "bool" and bv.defs.get(src["l"]):
-            sub = _flag_sites(bv, c, src["l"], (not want) if neg else want, depth + 1)
+            sub = _flag_sites(bv, c, src["l"], (not want) if neg else want, depth + 1, W)
             if sub is None:
                 return None
             out += sub
@@ -211,18 +211,33 @@ def _flag_sites(bv, c, l, want, depth=0):
                 op_ = tds[0][3]["ops"][src["p"][0]["i"]]
                 pl_ = op_.get("m") or op_.get("c")
                 if pl_ is not None and not pl_.get("p") and bv.defs.get(pl_["l"]) and bv.crate.types[bv.locals[pl_["l"]]["t"]]["s"] == "bool":
-                    sub = _flag_sites(bv, c, pl_["l"], want, depth + 1)
+                    sub = _flag_sites(bv, c, pl_["l"], want, depth + 1, W)
                     if sub is None:
                         return None
                     out += sub
                     continue
         if neg:
             return None
+        if W is not None and src is not None and src.get("p") and len(src["p"]) == 1 and src["p"][0].get("k") == "field":
+            # `let (finish, flag) = self.load_it().await;`: follow the private async helper to the tuple it returns
+            ac = optnorm.await_callee(W, bv, bv.trace_local(src["l"]))
+            if ac is not None and not (W.by_id.get(ac[0].body.get("parent")) or {}).get("pub"):
+                cv_ = ac[0]
+                rds = [d for d in cv_.defs.get(0, []) if d[0] in cv_.reach0]
+                if len(rds) == 1 and rds[0][2] == "rv" and rds[0][3]["k"] == "agg" and rds[0][3].get("ak") == "tuple":
+                    op_ = rds[0][3]["ops"][src["p"][0]["i"]]
+                    pl_ = op_.get("m") or op_.get("c")
+                    if pl_ is not None and not pl_.get("p") and cv_.defs.get(pl_["l"]) and cv_.crate.types[cv_.locals[pl_["l"]]["t"]]["s"] == "bool":
+                        sub = _flag_sites(cv_, c, pl_["l"], want, depth + 1, W)
+                        if sub is None:
+                            return None
+                        out += sub
+                        continue
         t = optnorm.simplify(bv._trace_rv(x, None, 0))
         tc = lib.term_const(c, strip(t))
         if tc in (0, 1):
             if bool(tc) == want:
-                out.append((bi, None))
+                out.append((bv, bi, None))
             continue
         if strip(t)[0] == "phi":
             # `a && b` as a value: the alternatives are the constant false and b
@@ -230,15 +245,15 @@ def _flag_sites(bv, c, l, want, depth=0):
                 ac = lib.term_const(c, strip(a_))
                 if ac in (0, 1):
                     if bool(ac) == want:
-                        out.append((bi, None))
+                        out.append((bv, bi, None))
                 elif _readable_cond(a_):
-                    out.append((bi, a_))
+                    out.append((bv, bi, a_))
                 else:
                     return None
             continue
         if not _readable_cond(t):
             return None
-        out.append((bi, t))
+        out.append((bv, bi, t))
     return out
 
 
@@ -565,8 +580,8 @@ def run(F, R):
         for l, ds in rv.defs.items():
             if rv.crate.types[rv.locals[l]["t"]]["s"] != "bool" or not rv.locals[l].get("u"):
                 continue
-            ts_ = _flag_sites(rv, c, l, True)
-            fs_ = _flag_sites(rv, c, l, False)
+            ts_ = _flag_sites(rv, c, l, True, 0, W)
+            fs_ = _flag_sites(rv, c, l, False, 0, W)
             if ts_ and fs_:
                 # the flag that is tested right before the report call
                 ft = rv.trace_local(l)
@@ -579,17 +594,21 @@ def run(F, R):
             fterm = rv.trace_local(flag)
             flag_true = [(a, b) for (a, b, tr) in rv.bool_edges(lambda t: t == fterm, whole=True) if tr]
             R.check("C18-R4", "report-guarded-by-flag", flag_true and rv.dominated_by_edge(rbi, flag_true), "report only while the flag is set", "the duration is reported without consulting the report-once flag", lib.loc(rv, rbi))
-            sites_true = _flag_sites(rv, c, flag, True)
-            sets_true = [b for b, _ in sites_true]
+            sites_true = _flag_sites(rv, c, flag, True, 0, W)
+            sets_true = [b for v_, b, _ in sites_true if v_ is rv]
             comps = rv.sccs()
             inloop = lambda b: any(b in L for L in comps)
-            resets = [bi for bi, tm_ in _flag_sites(rv, c, flag, False) if inloop(bi) and tm_ is None]
-            some_fin = [(a, b) for (a, b, tr) in rv.bool_edges(lambda t: t[0] == "call" and t[1].endswith("Option::<T>::is_some") and "update_finish_time" in lib.apath(t)) if tr]
+            resets = [bi for v_, bi, tm_ in _flag_sites(rv, c, flag, False, 0, W) if v_ is rv and inloop(bi) and tm_ is None]
             eq_atom = _eq_target_version(W)
-            eq_os = lib.equal_edges(rv, lambda t: eq_atom(rv, ("call", "std::cmp::PartialEq::eq", t[2])))
-            fin_ok = bool(sites_true) and all((some_fin and rv.dominated_by_edge(b, some_fin)) or (tm_ is not None and _implies(W, rv, tm_, _is_some_finish)) for b, tm_ in sites_true)
+
+            def some_fin_of(v_):
+                return [(a, b) for (a, b, tr) in v_.bool_edges(lambda t: t[0] == "call" and t[1].endswith("Option::<T>::is_some") and "update_finish_time" in lib.apath(t)) if tr]
+
+            def eq_os_of(v_):
+                return lib.equal_edges(v_, lambda t: eq_atom(v_, ("call", "std::cmp::PartialEq::eq", t[2])))
+            fin_ok = bool(sites_true) and all((some_fin_of(v_) and v_.dominated_by_edge(b, some_fin_of(v_))) or (tm_ is not None and _implies(W, v_, tm_, _is_some_finish)) for v_, b, tm_ in sites_true)
             R.check("C18-R4", "flag-set-only-if-finish-time", fin_ok, "flag set only when a finish time is stored", "the flag is set without a stored finish time")
-            ver_ok = bool(sites_true) and all((eq_os and rv.dominated_by_edge(b, eq_os)) or (tm_ is not None and _implies(W, rv, tm_, eq_atom)) for b, tm_ in sites_true)
+            ver_ok = bool(sites_true) and all((eq_os_of(v_) and v_.dominated_by_edge(b, eq_os_of(v_))) or (tm_ is not None and _implies(W, v_, tm_, eq_atom)) for v_, b, tm_ in sites_true)
             R.check("C18-R4", "flag-set-only-on-target-version", ver_ok, "flag set only when a stored target version == config.os.version", "the flag is set although no stored target version equals the running version (a missing one compared as a default value counts as not stored)")
             okE = []
             for sb in sorted(rv.reach0):
@@ -599,11 +618,21 @@ def run(F, R):
                         if "Ok" in si.edge_names(rv, b):
                             okE.append((sb, b))
             rms = [k for k in bykey.get(K["finish"], []) + bykey.get(K["target"], []) if k["name"] in ("remove_or_log", "remove") and k["bv"] is rv]
+            cm_helper = []
+            if not rms:
+                # the clean-up (remove both keys, commit) may have been moved into a private async helper called here
+                for (hbi_, ht_, hcv_) in lib.async_callees(W, rv):
+                    hk_ = [k for k in bykey.get(K["finish"], []) + bykey.get(K["target"], []) if k["name"] in ("remove_or_log", "remove") and k["bv"] is hcv_]
+                    if len(hk_) == 2:
+                        rms = [dict(k, bi=hbi_) for k in hk_]
+                        if any(t2.get("trait") in ("storage::Storage", "storage::StorageExt") and t2["name"] in ("commit", "commit_or_log") and not (set(hcv_.exits()) & hcv_.reach_from([0], avoid=[b2])) for b2, t2 in hcv_.calls()):
+                            cm_helper = [hbi_]
             R.check("C18-R4", "cleared-only-on-success", okE and resets and all(rv.dominated_by_edge(b, okE) for b in resets) and len(rms) == 2 and all(rv.dominated_by_edge(k["bi"], okE) for k in rms),
                     "flag reset and both keys removed only after a successful report", "the record is cleared without a successful report (or never)")
             for (a, b) in okE:
                 nxt = [bi for bi, t in rv.calls() if t.get("trait") == "policy::PolicyEngine"]
                 cmts = [bi for bi, t in rv.calls() if t.get("trait") in ("storage::Storage", "storage::StorageExt") and t["name"] in ("commit", "commit_or_log") and rv.dominated_by_edge(bi, okE)]
+                cmts += [b_ for b_ in cm_helper if rv.dominated_by_edge(b_, okE)]
                 r1 = rv.reach_from([b], avoid=resets)
                 r2 = rv.reach_from([b], avoid=[k["bi"] for k in rms])
                 r3 = rv.reach_from([b], avoid=cmts)
@@ -613,9 +642,13 @@ def run(F, R):
             # .. and before the stored record is read: waiting for the storage (its mutex, a slow backend) must not count as time waited for the reboot
             from .. import locks as _locks
             st_ops = [bi for bi, t in rv.calls() if t.get("trait") in ("storage::Storage", "storage::StorageExt") or _locks.lock_kind_of_call(c, t) == "ST"]
+            # .. or hands the job to a private async helper that does
+            summ_ = _locks.Summaries(W)
+            st_ops += [hbi_ for (hbi_, ht_, hcv_) in lib.async_callees(W, rv) if "ST" in summ_.of(hcv_.body)[0]]
             R.check("C18-R4", "start-instant-before-storage", len(start) == 1 and st_ops and start[0] not in rv.reach_from(st_ops), "the start instant is taken before the storage is locked or read",
                     "the start instant is taken after storage operations: the time spent waiting for the storage is reported as time waited for the reboot", lib.loc(rv, start[0]) if start else None)
-            a_fin = terms.render(rv, rv.trace_op(rt["args"][1]), W, {})
+            from .. import optnorm as _on4
+            a_fin = terms.render(rv, _on4.simplify(_on4.inline_awaits(W, rv, rv.trace_op(rt["args"][1]))), W, {})
             a_start = terms.render(rv, rv.trace_op(rt["args"][2]), W, {})
             if "get_time(" not in a_fin and "(param1" in a_fin:
                 R.inconclusive("C18-R4", "report-arguments", "the finish time handed to the report comes out of a helper this rule does not read: %s" % a_fin[:80])
